@@ -223,6 +223,54 @@ def _execute_bytes(job):
         shutil.rmtree(d, ignore_errors=True)
 
 
+# ---------------- several files in one run: each file gets what it gets alone (reference = a fresh process per file) ----------------
+def _solo(job):
+    """text API in a fresh interpreter: nothing formatted before it"""
+    doc, u = job
+    code = ("import sys, json; from flowmark import reformat_text; from flowmark.formats.flowmark_markdown import ListSpacing; "
+            "u = json.loads(sys.argv[1]); sys.stdout.write(reformat_text(sys.stdin.read(), width=u['width'], plaintext=u['plaintext'], semantic=u['semantic'], "
+            "cleanups=u['cleanups'], smartquotes=u['smartquotes'], ellipses=u['ellipses'], list_spacing=ListSpacing(u['ls'])))")
+    p = subprocess.run([PY, "-c", code, json.dumps(u)], input=doc.encode(), capture_output=True,
+                       env=dict(os.environ, PYTHONPATH=f"{REPO}/src"), timeout=120)
+    if p.returncode != 0:
+        raise RuntimeError(p.stderr.decode()[-300:])
+    return p.stdout.decode()
+
+
+def _execute_multi(job):
+    from flowmark.reformat_api import reformat_files
+    ep, u, docs, refs = job
+    d = os.path.realpath(tempfile.mkdtemp(prefix="c15m-"))
+    cwd0 = os.getcwd()
+    try:
+        os.chdir(d)
+        names = [f"f{i}.md" for i in range(len(docs))]
+        for n, x in zip(names, docs):
+            open(n, "w").write(x)
+        rc, so = 0, ""
+        if ep == "cli_multi_stdout":
+            rc, so, _ = _cli_inproc(flags(u) + names, "")
+            got, pos = [], 0
+            for r in refs:          # stdout is the concatenation: cut it at the reference lengths
+                got.append(so[pos: pos + len(r)])
+                pos += len(r)
+            if pos != len(so):
+                got[-1] += so[pos:]
+        else:
+            if ep == "cli_multi_inplace":
+                rc, so, _ = _cli_inproc(flags(u) + ["--inplace", "--nobackup"] + names, "")
+            else:
+                reformat_files(list(names), inplace=True, nobackup=True, **kwargs(u))
+            got = [open(n).read() for n in names]
+        same = [g == r for g, r in zip(got, refs)]
+        return dict(rc=rc, same=same, got=got)
+    except BaseException as e:  # noqa: BLE001
+        return dict(rc=98, same=[False] * len(docs), got=[repr(e)[:300]])
+    finally:
+        os.chdir(cwd0)
+        shutil.rmtree(d, ignore_errors=True)
+
+
 MODEL_MUTANTS = ["swap_sem_cleanups", "files_drops_ls", "auto_misses_ellipses"]
 
 
@@ -230,7 +278,7 @@ def run(tier: str) -> int:
     chk = Check("C15", tier, "model_checking")
     widths = {0, 40, 88}
     chk.rule = ("cases = the complete product width{0,40,88} x plaintext x semantic x cleanups x smartquotes x ellipses x list-spacing x 15 "
-                "entry points of spec/EntryPoints.tla; every point is executed in-process (+40 subprocess runs in quick, +300 in thorough); non-trivial = distinct (entry point, option point) executed")
+                "entry points of spec/EntryPoints.tla; several-files family: ordered pairs of 16 state-stressing documents x option points x 3 several-file entry points, each file compared with a fresh-process solo run; every point is executed in-process (+40 subprocess runs in quick, +300 in thorough); non-trivial = distinct (entry point, option point) executed")
     chk.assumptions = ["in-process cli.main with redirected sys.stdin/sys.stdout stands for the CLI; a seeded subset is cross-checked as real subprocesses",
                        "the reference is reformat_text(probe, **Expected) on the same tree (agreement, not absolute correctness)"]
     res = tlc.run_tlc("EntryPoints", tlc.cfg_text(constants=dict(Widths=widths, Mutant="none", DoDump=True),
@@ -309,6 +357,41 @@ def run(tier: str) -> int:
     for t in btr:
         if not brep[t["id"]][3]:
             chk.violation("Agree(bytes on disk)", metas[t["id"]])
+    # ---- several files in one run ----
+    from harness.props import c13
+    mdocs = [x for x in c13.DOCS if x.strip()] + [PROBE, "[spec]: https://example.com/spec\n\nSee the [spec] for details.\n", "intro\n\n## Ends with a heading\n",
+                                                 "| 1 | 2 |\n|---|---|\n| 3 | 4 |\n", "| \\. | x |\n|---|---|\n| a | b |\n"]
+    mu = [json.loads(u) for k, u in enumerate(upoints) if not json.loads(u)["plaintext"]]
+    mu = mu[chk.seed % 7:: max(1, len(mu) // (3 if tier == "quick" else 12))][: (3 if tier == "quick" else 12)]
+    solo_jobs = [(x, u) for u in mu for x in mdocs]
+    solo = dict(zip(((x, json.dumps(u, sort_keys=True)) for x, u in solo_jobs), pmap(_solo, solo_jobs, chunksize=2)))
+    mjobs = []
+    for u in mu:
+        ku = json.dumps(u, sort_keys=True)
+        for a in range(len(mdocs)):
+            for b in range(len(mdocs)):
+                if a == b:
+                    continue
+                for ep in ("cli_multi_stdout", "cli_multi_inplace", "api_files_inplace"):
+                    if tier == "quick" and (a + b + len(ep)) % 3:
+                        continue
+                    mjobs.append((ep, u, [mdocs[a], mdocs[b]], [solo[(mdocs[a], ku)], solo[(mdocs[b], ku)]]))
+    mtr = []
+    for tid3, (job, r) in enumerate(zip(mjobs, pmap(_execute_multi, mjobs, chunksize=20)), 2 * 10 ** 6):
+        chk.evaluations += 1
+        chk.nontriv(("multi", job[0], json.dumps(job[1], sort_keys=True), dig(job[2][0]), dig(job[2][1])))
+        mtr.append(dict(id=tid3, ep=job[0], u=job[1], ref=dig(job[3][0]), out=dig(r["got"][0]), rc=int(r["rc"]), fs_ok=True, side=all(r["same"][1:])))
+        metas[tid3] = dict(ep=job[0], u=job[1], expected=job[1], subprocess=False, rc=r["rc"], flags=flags(job[1]), files=job[2], alone=job[3], in_run=r["got"],
+                           family="several files in one run; reference = each file formatted alone in a fresh process")
+    mrep, g3, d3 = tlc.validate_traces("EntryTrace", mtr, cfg=tlc.cfg_text(spec="TraceSpec", constants=dict(Widths=widths, Mutant="none", DoDump=False),
+                                                                          invariants=["Report"]))
+    chk.states += d3
+    chk.transitions += g3
+    chk.traces += len(mtr)
+    chk.notes["several_files_runs"] = len(mtr)
+    for t in mtr:
+        if not mrep[t["id"]][3]:
+            chk.violation("EachFileAsAlone", metas[t["id"]])
     for id_ in list(metas)[:: max(1, len(metas) // 5)][:5]:
         chk.sample({k: metas[id_][k] for k in ("ep", "flags", "rc", "subprocess")})
     chk.exhaustive = True
